@@ -5,6 +5,7 @@ import json, os, random, re
 from pathlib import Path
 import vlib
 from vlib import Broken
+import C19_qi
 
 # universes / limits; they must agree with the TLC configurations named next to them
 SMALL = dict(na=2, maxnonce=2, maxprice=3, accountslots=1, globalslots=2, accountqueue=2, globalqueue=2,
@@ -370,13 +371,15 @@ def run(ctx):
     drv = build()
     col = Collected()
     drv_race = None
-    with cf.ThreadPoolExecutor(max_workers=5) as ex:
+    with cf.ThreadPoolExecutor(max_workers=9) as ex:
         futs = [ex.submit(stage_design, ctx, col), ex.submit(stage_emit, ctx, col, drv), ex.submit(stage_gap, ctx, col, drv)]
         if ctx.quick:
             futs.append(ex.submit(stage_random, ctx, col, drv, None))
         else:
             drv_race = build(race=True)
             futs.append(ex.submit(stage_random, ctx, col, drv, drv_race))
+        # the Qi (UTXO) side of the pool and the worker's selection from it (C19_qi.py)
+        futs += C19_qi.run_all(ctx, col, ex, handle_driver_output, race=not ctx.quick)
         errs = []
         for f in futs:
             try:
@@ -390,7 +393,8 @@ def run(ctx):
         if key not in repeated:
             repeated[key] = rerun() if rerun else True
         if repeated[key]:
-            col.reports.append(({"kind": "stuck", "what": re.sub(r"round \d+", "a round", v.get("what", ""))[:120]},
+            kind = "qi-stuck" if str(base.get("type", "")).startswith("qi-") else "stuck"
+            col.reports.append(({"kind": kind, "what": re.sub(r"round \d+", "a round", v.get("what", ""))[:120]},
                                 dict(base, violation=v)))
         else:
             vlib.log("a run got stuck once (%s) but not when repeated: not reported" % v.get("what"))
@@ -402,15 +406,19 @@ def run(ctx):
     rnd = col.cov.get("random", {})
     validated = sum(rnd.get(k, {}).get("scenarios", 0) for k in ("sequential_validated", "concurrent_validated", "race_validated"))
     cov = dict(col.cov)
-    cov.update(traces_validated_against_impl=validated + (cov.get("replay_status", {}).get("ok", 0)),
+    cov.update(traces_validated_against_impl=validated + (cov.get("replay_status", {}).get("ok", 0)) + C19_qi.validated(col),
+               qi_traces_validated_against_impl=C19_qi.validated(col),
                random_scenarios_validated_by_TLC=validated, samples=col.samples[:4], exhaustive=True,
                rule="TLC: exhaustive protocol model + every transition of the bounded fused model emitted with the specified "
                     "pool state after each step and replayed on real core.TxPool instances (snapshot under pool.mu compared "
                     "after every step); seeded random schedules (sequential and concurrent producers%s) logged per critical "
                     "section and validated by TxPoolTrace.tla, which evaluates the C19 invariants on the implementation's "
-                    "snapshots" % ("" if ctx.quick else ", race detector on"))
-    vlib.write_evidence(ctx, "model_checking", cov, [
-        "transactions are plain Quai transfers (gas 21000, value 0); Qi transactions, the journal and tx sharing clients are not exercised",
+                    "snapshots; Qi side: spec/QiPool.tla checked exhaustively, its bounded behaviours replayed on real pools over a "
+                    "stub chain with a real UTXO database (answer class, LRU order, fees, fee cache after every step), random "
+                    "universes / concurrent producers / a real in-process node with the real worker logged and validated by "
+                    "QiPoolTrace.tla" % ("" if ctx.quick else ", race detector on"))
+    vlib.write_evidence(ctx, "model_checking", cov, C19_qi.ASSUMPTIONS + [
+        "Quai side: transactions are plain Quai transfers (gas 21000, value 0); the journal and tx sharing clients are not exercised",
         "the stub chain fabricates blocks and states; state roots are labels, not trie roots",
         "wall-clock eviction and heartbeat order are abstracted in the specification (any subset / any order); the trace "
         "resolves them from the logged snapshots",
@@ -424,7 +432,9 @@ def replay(ctx, path):
     j = json.loads(Path(path).read_text())
     rep = j["replay"]
     col = Collected()
-    if rep.get("type") == "behaviour" and rep.get("behaviour"):
+    if str(rep.get("type", "")).startswith("qi-"):
+        C19_qi.replay_one(ctx, col, rep)
+    elif rep.get("type") == "behaviour" and rep.get("behaviour"):
         drv = build()
         rj = replay_behaviours(ctx, col, drv, [rep["behaviour"]], rep["universe"], "one", workers=1)
         print(json.dumps(rj and rj["status"]))
